@@ -47,6 +47,9 @@ func init() {
 		if err := entity.Check(run, n); err != nil {
 			return err
 		}
+		// "never affects how any later request is read" / a decompressor is never shared: bodies read at
+		// the same moment, every provider
+		entity.CheckConcurrentReads(run, sizes(run, 12, 120))
 		// findings proposed by this slice that are not (yet) listed in known_findings.json are still
 		// reported, on stderr, so that they are never silent
 		known, _ := report.LoadKnown()
